@@ -752,8 +752,13 @@ impl<'a, 'b> G<'a, 'b> {
             self.f.unusual("vmodel-target-eval");
             self.c.choose(&["eval", "(eval)"])
         } else {
-            // (sometimes not assignable at all: to be reported)
-            self.c.choose(&["m", "o.p", "o[x]", "xs[0]", "o.a.b", "m", "o.p", "o[x]", "xs[0]", "o.a.b", "x + y", "f()", "{ a: 1 }", "-x", "1"])
+            if self.c.chance(1, 12) {
+                // not assignable at all: to be reported (and nothing may crash afterwards)
+                self.f.unusual("vmodel-target-not-assignable");
+                self.c.choose(&["x + y", "f()", "{ a: 1 }", "-x", "1"])
+            } else {
+                self.c.choose(&["m", "o.p", "o[x]", "xs[0]", "o.a.b"])
+            }
         };
         let val_kind = self.c.weighted(&[
             8,
